@@ -24,6 +24,11 @@ RULES = [
     ('C15', [r'^round$']),
     ('C19', [r'^VmMath\.logical_op', r'^cycle$', r'^round$']),
     ('C17', [r'^cycle$']),
+    # round 6: a compiler re-used after a rejected text (C16: compilation depends only on the token sequence); a stop needs the
+    # running state under the job's own name (C09); an emptied directory gives zero iterations (C13)
+    ('C16', [r'^Context\.clear']),
+    ('C09', [r'^WebApp\.get_script_control']),
+    ('C13', [r'^VmDiscover\.disc\[']),
 ]
 for pid, pats in RULES:
     for c in spec.REGISTRY:
